@@ -355,6 +355,76 @@ pub fn load_sql(a: &Value) -> Vec<String> {
     stmts
 }
 
+/// CREATE TRIGGER from the abstract definition; returns the statement and a readable rendering.
+pub fn build_trigger(a: &Value) -> (Option<vibesql_ast::CreateTriggerStmt>, String) {
+    use vibesql_ast::{TriggerAction, TriggerEvent, TriggerGranularity, TriggerTiming};
+    let g = |k: &str| a[k].as_str().unwrap_or("").to_string();
+    let ev = g("ev");
+    let t = g("t");
+    // column names of the subject table are passed with the action (c1, c2): OLD.c / NEW.c images
+    let c1 = a["c"][0].as_str().unwrap_or("ID");
+    let c2 = a["c"][1].as_str().unwrap_or("V");
+    let img = |p: &str, c: &str| -> String {
+        // statement-level triggers have no row images at all
+        let has = a["gran"].as_str() == Some("row")
+            && match (p, ev.as_str()) {
+                ("OLD", "ins") => false,
+                ("NEW", "del") => false,
+                _ => true,
+            };
+        if has { format!("{}.{}", p, c) } else { "NULL".to_string() }
+    };
+    let body = &a["body"];
+    let body_sql = match body["k"].as_str().unwrap_or("") {
+        "audit" => format!(
+            "INSERT INTO {} VALUES ('{}', {}, {}, {}, {})",
+            body["into"].as_str().unwrap_or(""),
+            body["tag"].as_str().unwrap_or(""),
+            img("OLD", c1), img("OLD", c2), img("NEW", c1), img("NEW", c2)
+        ),
+        _ => format!(
+            "INSERT INTO {} VALUES ({})",
+            body["into"].as_str().unwrap_or(""),
+            img(if body["src"].as_str() == Some("old") { "OLD" } else { "NEW" }, c2)
+        ),
+    };
+    let when_sql = if a["when"]["k"].as_str().unwrap_or("none") == "none" { None } else { Some(render::expr(&a["when"])) };
+    let when = match &when_sql {
+        None => None,
+        Some(w) => match vibesql_parser::Parser::parse_sql(&format!("SELECT 1 WHERE {}", w)) {
+            Ok(Statement::Select(sel)) => sel.where_clause.clone().map(Box::new),
+            _ => return (None, format!("-- cannot parse WHEN {}", w)),
+        },
+    };
+    let ofcols: Vec<String> = a["ofcols"].as_array().map(|v| v.iter().filter_map(|x| x.as_str().map(|s| s.to_string())).collect()).unwrap_or_default();
+    let event = match ev.as_str() {
+        "ins" => TriggerEvent::Insert,
+        "del" => TriggerEvent::Delete,
+        _ => TriggerEvent::Update(if ofcols.is_empty() { None } else { Some(ofcols.clone()) }),
+    };
+    let text = format!(
+        "CREATE TRIGGER {} {} {}{} ON {} FOR EACH {}{} {}",
+        g("n"),
+        g("timing").to_uppercase(),
+        match ev.as_str() { "ins" => "INSERT", "del" => "DELETE", _ => "UPDATE" },
+        if ofcols.is_empty() { String::new() } else { format!(" OF ({})", ofcols.join(", ")) },
+        t,
+        if g("gran") == "row" { "ROW" } else { "STATEMENT" },
+        when_sql.as_ref().map(|w| format!(" WHEN ({})", w)).unwrap_or_default(),
+        body_sql
+    );
+    let stmt = vibesql_ast::CreateTriggerStmt {
+        trigger_name: g("n"),
+        timing: if g("timing") == "before" { TriggerTiming::Before } else { TriggerTiming::After },
+        event,
+        table_name: t,
+        granularity: if g("gran") == "row" { TriggerGranularity::Row } else { TriggerGranularity::Statement },
+        when_condition: when,
+        triggered_action: TriggerAction::RawSql(body_sql),
+    };
+    (Some(stmt), text)
+}
+
 /// Save `db` in the named format under `dir` and load the file into a new database.
 pub fn save_and_load(db: &Database, fmt: &str, dir: &std::path::Path) -> Result<Database, String> {
     let e = |x: &dyn std::fmt::Display| format!("{}", x);
@@ -563,6 +633,20 @@ impl Engine {
                 let t = a["t"].as_str().unwrap_or("");
                 let stmt = vibesql_ast::AnalyzeStmt { table_name: if t.is_empty() { None } else { Some(t.to_string()) }, columns: None };
                 exec_stmt(&mut self.db, Statement::Analyze(stmt))
+            }
+            "ctrg" => {
+                // triggers are created through the AST (the parser stores trigger bodies as formatted tokens that
+                // cannot be executed later; the repository's own tests build CreateTriggerStmt with RawSql as well)
+                let (stmt, text) = build_trigger(a);
+                sql = text;
+                match stmt {
+                    Some(st) => exec_stmt(&mut self.db, Statement::CreateTrigger(st)),
+                    None => Outcome { out: "err", cnt: 0, rows: None, msg: "cannot build trigger".into() },
+                }
+            }
+            "dtrg" => {
+                sql = format!("DROP TRIGGER {}", a["n"].as_str().unwrap_or(""));
+                exec_sql(&mut self.db, &sql)
             }
             "secon" => {
                 self.db.enable_security();
